@@ -498,6 +498,7 @@ fn main() {
 			"pruning_kept_everything",
 			"announcement_rejected_while_tombstoned",
 			"channel_reannounced_after_removal",
+			"channel_replaced_by_conflicting_announcement",
 			"rgs_applied",
 			"rgs_rejected",
 			"rgs_added_channel",
